@@ -521,6 +521,13 @@ prop("C17",
          "explored. Object addresses (id) and global counters are not "
          "varied; id() is used in the anchored modules only as a cache key "
          "(survey in DESIGN.md)."),
+     evaluation_rule=(
+         "one evaluation = one interpreted execution of a generator / the "
+         "partitioner for one listed program under one choice of iteration "
+         "order (site, permutation); distinct by construction (decision "
+         "vectors are enumerated); non-trivial = a set iteration site was "
+         "actually permuted on that path (the all-reference path is the "
+         "trivial one)"),
      technique="contract-based: 2-safety postcondition (result equals the "
                "reference run) checked by interpreting the real source under "
                "an adversarial set-iteration-order model -- bounded stand-in, "
